@@ -20,6 +20,7 @@ import (
 	"time"
 
 	"github.com/hashicorp/go-msgpack/v2/codec"
+	"github.com/hashicorp/memberlist"
 	"github.com/hashicorp/serf/cmd/serf/command/agent"
 	"github.com/hashicorp/serf/serf"
 
@@ -113,6 +114,12 @@ type rigOpts struct {
 	TagsFile string
 	Tags     map[string]string // initial tags (only without a tags file)
 	Loopback bool
+	// Keyring: 16-byte primary key; when set the agent's Serf runs with
+	// encryption enabled, so the key commands really change the keyring
+	Keyring []byte
+	// WrapListener lets a check put its own net.Listener around the loopback
+	// listener handed to the IPC server (slow or gated connection writes)
+	WrapListener func(net.Listener) net.Listener
 }
 
 // rig is one agent + IPC server + harness-side handles.
@@ -147,6 +154,14 @@ func newRig(o rigOpts) (*rig, error) {
 	nw := simnet.New(1)
 	nw.Loopback = o.Loopback
 	conf, tr := serfConf(nw, o.Name, o.Tags)
+	if o.Keyring != nil {
+		kr, err := memberlist.NewKeyring(nil, o.Keyring)
+		if err != nil {
+			tr.Kill()
+			return nil, fmt.Errorf("keyring: %w", err)
+		}
+		conf.MemberlistConfig.Keyring = kr
+	}
 	aconf := agent.DefaultConfig()
 	aconf.NodeName = o.Name
 	aconf.TagsFile = o.TagsFile
@@ -170,7 +185,11 @@ func newRig(o rigOpts) (*rig, error) {
 		tr.Kill()
 		return nil, fmt.Errorf("listen: %w", err)
 	}
-	ipc := agent.NewAgentIPC(a, o.AuthKey, ln, out, lw, false)
+	var sln net.Listener = ln
+	if o.WrapListener != nil {
+		sln = o.WrapListener(ln)
+	}
+	ipc := agent.NewAgentIPC(a, o.AuthKey, sln, out, lw, false)
 	return &rig{nw: nw, tr: tr, conf: conf, aconf: aconf, agent: a, ipc: ipc, ln: ln, rec: rec, logs: logs}, nil
 }
 
